@@ -2,6 +2,7 @@
   C04 — ITS releases inbound tokens only for approved trusted messages, at most once.
 -/
 import Axelar.Proofs.GwHistory
+import Axelar.Proofs.ItsLedger
 namespace Axelar.Props.C04
 open Axelar Axelar.ItsW Axelar.Its Codec
 
@@ -150,6 +151,74 @@ theorem no_second_release (C : Crypto) (w : World) (ops : List World.Op) (cx : I
     processInterchainTransfer C cx oc sc mid sa ph payload t = none :=
   executed_message_releases_nothing C cx oc sc mid sa ph payload t p hd hdata hk
     (by rw [ht]; exact executed_message_stays_executed C w ops (sc, mid) hex)
+
+/-! ### The recipient receives exactly the amount -/
+
+/-- **Exact release.**  When the no-data transfer step succeeds, then for EVERY account and EVERY
+    asset (EGLD and every ESDT key) the balances after the step are the balances before it with
+    exactly `amount` of the token recorded by the manager of the payload's token id added to the
+    recipient named in the payload — taken out of the manager's holdings when it is a
+    lock/unlock manager (`giveOut`), freshly minted when it is a mint/burn manager — and nothing
+    else moved: the service itself, the gateway, the caller and every other account keep
+    exactly what they had.  (The manager accepted the call only from the service that deployed
+    it: `cx.self = service`.) -/
+theorem release_pays_exactly_the_amount (C : Crypto) (cx : ICtx) (oc sc mid sa ph payload : Bytes) (t t' : Tx)
+    (p : Abi.Transfer) (hd : Abi.Transfer.decode payload = .ok p) (hdata : p.data = [])
+    (tm : Bytes) (st : TokenManager.State) (htm : t.w.its.tmAddress p.tokenId = tm) (hst : t.w.tms tm = st)
+    (hkgw : t.w.kind t.w.its.gateway = some .gateway) (hktm : t.w.kind tm = some .tokenManager)
+    (h : processInterchainTransfer C cx oc sc mid sa ph payload t = some ((), t')) :
+    cx.self = st.service ∧
+    World.Led t.w t'.w (giveOut st tm p.amount)
+      (World.pt p.destinationAddress (TokenManager.tokOfBytes st.tokenIdentifier) p.amount) := by
+  obtain ⟨p', hd', _, hrel⟩ := release_requires_validation C cx oc sc mid sa ph payload t t' h
+  rw [hd] at hd'
+  cases hd'
+  obtain ⟨t0, t1, r, hw, hv, hg⟩ := hrel hdata
+  have hk0 : t0.w.kind t0.w.its.gateway = some .gateway := by rw [hw]; exact hkgw
+  have ho := gatewayValidate_only C cx sc mid sa ph t0 t1 true hk0 hv
+  have htm1 : t1.w.its.tmAddress p.tokenId = tm := by rw [ho.its, hw]; exact htm
+  have hst1 : t1.w.tms tm = st := by rw [ho.tms, hw]; exact hst
+  have hk1 : t1.w.kind tm = some .tokenManager := by rw [ho.kind, hw]; exact hktm
+  obtain ⟨hsvc, _, hl⟩ := tmGiveToken_led C cx p.tokenId p.destinationAddress p.amount t1 t' r tm st htm1 hst1 hk1 hg
+  refine ⟨hsvc, ?_⟩
+  have hl0 : World.Led t.w t1.w World.nil World.nil := by rw [← hw]; exact ho.led
+  refine (hl0.trans hl).conv ?_
+  intro x k
+  simp only [World.plus, World.nil]
+  omega
+
+/-- … spelled out for a lock/unlock manager: the recipient gains the amount, the manager loses
+    it, every other balance is unchanged (recipient ≠ manager). -/
+theorem release_from_custody (C : Crypto) (cx : ICtx) (oc sc mid sa ph payload : Bytes) (t t' : Tx)
+    (p : Abi.Transfer) (hd : Abi.Transfer.decode payload = .ok p) (hdata : p.data = [])
+    (tm : Bytes) (st : TokenManager.State) (htm : t.w.its.tmAddress p.tokenId = tm) (hst : t.w.tms tm = st)
+    (hkgw : t.w.kind t.w.its.gateway = some .gateway) (hktm : t.w.kind tm = some .tokenManager)
+    (hkind : TokenManager.isMintBurnKind st.implType = false) (hne : p.destinationAddress ≠ tm)
+    (h : processInterchainTransfer C cx oc sc mid sa ph payload t = some ((), t')) :
+    let tok := TokenManager.tokOfBytes st.tokenIdentifier
+    World.balanceOf t'.w p.destinationAddress tok = World.balanceOf t.w p.destinationAddress tok + p.amount ∧
+    World.balanceOf t'.w tm tok + p.amount = World.balanceOf t.w tm tok ∧
+    ∀ x k, ¬ (k = tok ∧ (x = tm ∨ x = p.destinationAddress)) → World.balanceOf t'.w x k = World.balanceOf t.w x k := by
+  intro tok
+  obtain ⟨_, hl⟩ := release_pays_exactly_the_amount C cx oc sc mid sa ph payload t t' p hd hdata tm st htm hst hkgw hktm h
+  refine ⟨?_, ?_, ?_⟩
+  · have := hl p.destinationAddress tok
+    simp [giveOut, hkind, World.pt, hne, tok] at this
+    exact this
+  · have := hl tm tok
+    simp [giveOut, hkind, World.pt, Ne.symm hne, tok] at this
+    exact this
+  · intro x k hx
+    have := hl x k
+    by_cases hk : k = tok
+    · subst hk
+      have h1 : x ≠ tm := fun e => hx ⟨rfl, Or.inl e⟩
+      have h2 : x ≠ p.destinationAddress := fun e => hx ⟨rfl, Or.inr e⟩
+      simp [giveOut, hkind, World.pt, h1, h2] at this
+      exact this
+    · have hk' : ¬ k = TokenManager.tokOfBytes st.tokenIdentifier := hk
+      simp [giveOut, hkind, World.pt, hk'] at this
+      exact this
 
 /-- message type ids extracted from the source -/
 theorem message_types : Generated.MESSAGE_TYPE_INTERCHAIN_TRANSFER = 0 ∧
